@@ -97,21 +97,31 @@ def check_frame(out, rng, fr, sess, pending):
     cost = float(np.sum(mc.causal_effect(periods)))
     rs = mr.summary(level=level, threshold=thr * cost, tails=tails, report='last')
     r_est, r_lo, r_up = (float(rs[c].iloc[0]) for c in ('estimate', 'lower', 'upper'))
-    if cost > 0 and cond:
+    if cost != 0 and cond:
       bad = None
       if not en.close(est, r_est / cost, 1e-9):
         bad = f'estimate {est} != response estimate / cost = {r_est / cost}'
-      elif not en.close(lo, r_lo / cost, 1e-9):
+      elif cost > 0 and not en.close(lo, r_lo / cost, 1e-9):
         bad = f'lower {lo} != response lower / cost = {r_lo / cost}'
-      elif not en.close(up, r_up / cost, 1e-9):
+      elif cost > 0 and not en.close(up, r_up / cost, 1e-9):
         bad = f'upper {up} != response upper / cost = {r_up / cost}'
+      # a negative cost (spend reduction) turns the response interval around: the iROAS bounds are still the response bounds
+      # divided by the cost, the larger response quantile giving the lower iROAS bound (Student-t: symmetric about the estimate)
+      elif cost < 0 and not en.close(lo, (2 * r_est - r_lo) / cost, 1e-9, abs(r_est / cost)):
+        bad = f'lower {lo} != upper response quantile / cost = {(2 * r_est - r_lo) / cost} (negative cost)'
+      elif cost < 0 and tails == 2 and not en.close(up, r_lo / cost, 1e-9, abs(r_est / cost)):
+        bad = f'upper {up} != lower response quantile / cost = {r_lo / cost} (negative cost)'
+      elif cost < 0 and tails == 1 and up != math.inf:
+        bad = f'upper {up} is not inf for a one-tailed report'
       elif not en.close(rep['incremental_response_lower'], lo * cost, 1e-9) or not en.close(rep['incremental_response_upper'], up * cost, 1e-9):
         bad = (f'incremental-response bounds ({rep["incremental_response_lower"]}, {rep["incremental_response_upper"]}) != '
                f'iROAS bounds x cost ({lo * cost}, {up * cost})')
       elif not en.close(rep['incremental_cost'], cost, 1e-9) or not en.close(rep['incremental_response'], r_est, 1e-9):
         bad = f'incremental cost/response ({rep["incremental_cost"]}, {rep["incremental_response"]}) != ({cost}, {r_est})'
-      elif abs(rep['probability'] - float(rs['probability'].iloc[0])) > 1e-9:
-        bad = f'probability {rep["probability"]} != response probability at threshold x cost {float(rs["probability"].iloc[0])}'
+      elif abs(rep['probability'] - (float(rs['probability'].iloc[0]) if cost > 0 else 1 - float(rs['probability'].iloc[0]))) > 1e-9:
+        # iROAS > t  <=>  response > t x cost (cost > 0)  or  response < t x cost (cost < 0)
+        bad = (f'probability {rep["probability"]} != probability that the response effect is {"above" if cost > 0 else "below"} '
+               f'threshold x cost ({float(rs["probability"].iloc[0])} above)')
       if bad:
         out.oracle_violation(dict(facts, symptom='columns-incoherent'), case, 'fixed-cost: ' + bad)
         return
@@ -154,7 +164,7 @@ def run(out, tier, model_ok=True):
   pending = []
   scen_hist = {}
   for i in range(n):
-    fr = en.gen_frame(rng, cost_kind=('variable' if i % 3 == 2 else ('fixed_cool' if i % 6 == 1 else 'fixed')), cooldown=(rng.choice([1, 2, 4]) if i % 6 == 1 else None), n_pre=(rng.choice([4, 5, 6]) if i % 7 == 0 else None))
+    fr = en.gen_frame(rng, cost_kind=(('variable_trt_pre' if i % 9 == 2 else 'variable') if i % 3 == 2 else ('fixed_cool' if i % 6 == 1 else ('fixed_negative' if i % 6 == 4 else 'fixed'))), cooldown=(rng.choice([1, 2, 4]) if i % 6 == 1 else None), n_pre=(rng.choice([4, 5, 6]) if i % 7 == 0 else None))
     fr.update(use_cooldown=rng.random() < 0.6, level=rng.choice([0.9, 0.8, 0.95, 0.5, 0.3]), tails=rng.choice([1, 2]),
               thr=rng.choice([0.0, 0.0, 1.0, 2.5]), nsims=2000, random_state=rng.randint(0, 10 ** 6))
     scen_hist[fr['cost_kind']] = scen_hist.get(fr['cost_kind'], 0) + 1
